@@ -49,6 +49,7 @@ type FuncContract struct {
 	AtSend     []*Clause // assertions before every channel send in the function
 	Assumes    []*Clause // assumed at call sites, not checked against the body (listed as assumptions)
 	Invariants []*Clause
+	Steps      []*Clause // relation between one loop-head state (prev(x)) and the next
 	Effects    []*Clause // crash invariants
 	OnSpawn    []*Clause // ensures assumed by the spawner at `go f()`
 	Modifies   []string
@@ -454,8 +455,8 @@ func (cs *ContractSet) parseFile(path, pkgPath string) error {
 			case "loop":
 				// loop N invariant label: expr
 				fs := strings.SplitN(rest, " ", 3)
-				if len(fs) < 3 || fs[1] != "invariant" {
-					return errf("expected: loop N invariant label: expr")
+				if len(fs) < 3 || (fs[1] != "invariant" && fs[1] != "step") {
+					return errf("expected: loop N invariant|step label: expr")
 				}
 				var n int
 				if _, err := fmt.Sscanf(fs[0], "%d", &n); err != nil {
@@ -466,7 +467,12 @@ func (cs *ContractSet) parseFile(path, pkgPath string) error {
 					return err
 				}
 				c.Loop = n
-				cur.Invariants = append(cur.Invariants, c)
+				if fs[1] == "step" {
+					c.Kind = "step"
+					cur.Steps = append(cur.Steps, c)
+				} else {
+					cur.Invariants = append(cur.Invariants, c)
+				}
 			default:
 				return errf("unknown clause %q", word)
 			}
